@@ -70,6 +70,7 @@ type frame struct {
 	kcell    ssa.Value
 	dynCalls int
 	atCallN  int
+	localParams map[ssa.Value]bool
 }
 
 func (fr *frame) name(v ssa.Value) string {
@@ -516,7 +517,7 @@ func (fr *frame) encodeInstr(in ssa.Instruction, st *State, g string) {
 		r := vc.alloc(st, fr.prefix+x.Name())
 		fr.vals[x] = r
 		et := x.Type().Underlying().(*types.Pointer).Elem()
-		vc.store(st, r, et, vc.zero(et))
+		vc.storeZero(st, r, et)
 		if !addrEscapes(x, map[ssa.Value]bool{}, 0) {
 			vc.localCells = append(vc.localCells, localCell{addr: r, typ: et, alloc: x})
 		}
